@@ -12,7 +12,10 @@ from ..lean import Driver, hx
 
 LEVEL_NOTE = ("modelled, not verified: fnmatch.translate and the `re` engine of CPython 3.12.1 as encoded in "
               "Model/Glob.lean (validated exhaustively on small alphabets); matching is on code points of "
-              "surrogate-escaped names")
+              "surrogate-escaped names. C12Cmd: the whole command over any list of trash directories: info and payload gone iff the "
+              "pattern matches the entry's absolute original location (base name, or whole path for a pattern starting with '/'), "
+              "everything else intact; matching laws for all byte strings (literal = byte-for-byte, '*' matches all, directory part "
+              "ignored, '?' one code point); only the first argument is a pattern")
 RULE = ("exhaustive: every pattern of length <= 4 (quick: <= 3) over {a,B,*,?,[,],!,-,/} x every name of length <= 3 "
         "over {a,b,B,-,/,],[} plus the diagonal (name or path equal to the pattern text) through Filter.matches; plus seeded random longer patterns/names with non-ASCII and "
         "invalid UTF-8; distinct by (pattern, name); every case is non-trivial (reaches the matcher)")
